@@ -268,6 +268,10 @@ func genList(rng *rand.Rand, allowEmpty bool) []string {
 	for i := 0; i < n; i++ {
 		l = append(l, vIDs[rng.Intn(nIDs)])
 	}
+	// a name listed again later (F29): its first position counts
+	if len(l) > 1 && rng.Intn(5) == 0 {
+		l = append(l, l[rng.Intn(len(l)-1)])
+	}
 	return l
 }
 
@@ -322,11 +326,12 @@ func (h *vHarness) genOp(rng *rand.Rand) string {
 func genRD(rng *rand.Rand) (int64, int64) {
 	vals := []int64{0, 10, 20, 40}
 	r, d := vals[rng.Intn(4)], vals[rng.Intn(4)]
-	if rng.Intn(25) == 0 {
+	// negative durations mean none (F30)
+	if rng.Intn(10) == 0 {
 		r = -5
 	}
-	if rng.Intn(25) == 0 {
-		d = -5
+	if rng.Intn(10) == 0 {
+		d = -7
 	}
 	return r, d
 }
